@@ -370,53 +370,59 @@ func (fc *FnCtx) paramLookup(name string) (Val, bool) {
 
 // varAt finds the value of source variable `name` at the entry of block at (excluding at's own phis).
 func (fc *FnCtx) varAt(name string, at *ssa.BasicBlock, h *HeapState) (Val, bool) {
-	var best *varRef
-	for i := range fc.varRefs[name] {
-		r := &fc.varRefs[name][i]
-		if r.block == at || !r.block.Dominates(at) {
-			continue
+	return fc.resolveVar(name, at, -1, h)
+}
+
+// resolveVar: the value of source variable `name` just before instruction idx of block at (idx -1: at block
+// entry, before its phis).  Candidates are debug references and phis carrying the variable's name in
+// blocks that dominate the point; the latest one wins.
+func (fc *FnCtx) resolveVar(name string, at *ssa.BasicBlock, idx int, h *HeapState) (Val, bool) {
+	type cand struct {
+		b    *ssa.BasicBlock
+		idx  int
+		v    ssa.Value
+		addr bool
+	}
+	var best *cand
+	consider := func(c cand) {
+		if c.b == at {
+			if idx < 0 || c.idx > idx {
+				return
+			}
+		} else if !c.b.Dominates(at) {
+			return
 		}
-		if _, isPhiOfLoopBody := r.v.(*ssa.Phi); isPhiOfLoopBody && false {
-			continue
+		if _, done := fc.vals[c.v]; !done {
+			switch c.v.(type) {
+			case *ssa.Const, *ssa.Parameter, *ssa.Global, *ssa.Function:
+			default:
+				return
+			}
 		}
-		if best == nil || best.block.Dominates(r.block) && (best.block != r.block || r.idx > best.idx) {
-			best = r
+		if best == nil || (best.b != c.b && best.b.Dominates(c.b)) || (best.b == c.b && c.idx >= best.idx) {
+			cc := c
+			best = &cc
+		}
+	}
+	for _, r := range fc.varRefs[name] {
+		consider(cand{r.block, r.idx, r.v, r.addr})
+	}
+	for _, b := range fc.fn.Blocks {
+		for i, in := range b.Instrs {
+			phi, ok := in.(*ssa.Phi)
+			if !ok {
+				break
+			}
+			if phi.Comment == name {
+				consider(cand{b, i - len(b.Instrs) - 1, phi, false}) // phis come before everything else in the block
+			}
 		}
 	}
 	if best != nil {
 		if best.addr {
 			return fc.loadLoc(h, fc.locOf(best.v)), true
 		}
-		if v, ok := fc.vals[best.v]; ok {
-			return v, true
-		}
-		if _, isConst := best.v.(*ssa.Const); isConst {
-			return fc.val(best.v), true
-		}
-		if _, isParam := best.v.(*ssa.Parameter); isParam {
-			return fc.val(best.v), true
-		}
-	}
-	// phis of enclosing loop heads (e.g. "rangeindex")
-	var bestPhi *ssa.Phi
-	for _, b := range fc.fn.Blocks {
-		if b == at || !b.Dominates(at) {
-			continue
-		}
-		for _, in := range b.Instrs {
-			phi, ok := in.(*ssa.Phi)
-			if !ok {
-				break
-			}
-			if phi.Comment == name {
-				if _, done := fc.vals[phi]; done && (bestPhi == nil || bestPhi.Block().Dominates(b)) {
-					bestPhi = phi
-				}
-			}
-		}
-	}
-	if bestPhi != nil {
-		return fc.vals[bestPhi], true
+		return fc.val(best.v), true
 	}
 	return fc.paramLookup(name)
 }
